@@ -197,6 +197,25 @@ func runFreshBinder(p *Program, r *RuleResult) {
 						if sc == nil || len(t.Common().Args) != 2 || !isCtxType(t.Common().Args[0].Type()) {
 							continue
 						}
+						if p.isAnyExistenceTest(sc) {
+							// keys passed as a variadic list: stores into the backing array
+							tr, _ := ctxRoot(t.Common().Args[0])
+							if sl, ok := t.Common().Args[1].(*ssa.Slice); ok && tr == root {
+								if al, ok := sl.X.(*ssa.Alloc); ok && al.Referrers() != nil {
+									for _, u := range *al.Referrers() {
+										if ia, ok := u.(*ssa.IndexAddr); ok {
+											for _, st := range storesTo(ia) {
+												if accessPath(st.Val) == key {
+													found = true
+													tests = append(tests, t)
+												}
+											}
+										}
+									}
+								}
+							}
+							continue
+						}
 						if !p.isExistenceTest(sc) {
 							continue
 						}
@@ -357,6 +376,71 @@ func (p *Program) isExistenceTest(fn *ssa.Function) bool {
 			if !ok || lk.X != ssa.Value(fn.Params[0]) || lk.Index != ssa.Value(fn.Params[1]) {
 				return false
 			}
+		}
+	}
+	return true
+}
+
+// isAnyExistenceTest: func(ctx, keys ...string) bool that returns true as soon as one key is
+// in the context (an existence test applied to every element of the variadic parameter) and
+// false otherwise; a false result therefore says that none of the keys exists.
+func (p *Program) isAnyExistenceTest(fn *ssa.Function) bool {
+	if fn == nil || fn.Blocks == nil || len(fn.Params) != 2 || !isCtxType(fn.Params[0].Type()) || !fn.Signature.Variadic() {
+		return false
+	}
+	if bt, ok := fn.Signature.Results().At(0).Type().Underlying().(*types.Basic); fn.Signature.Results().Len() != 1 || !ok || bt.Kind() != types.Bool {
+		return false
+	}
+	view := p.View(fn)
+	var test *ssa.Call
+	for _, c := range p.callsIn(fn) {
+		call, ok := c.(*ssa.Call)
+		if !ok {
+			continue
+		}
+		if _, isBuiltin := call.Common().Value.(*ssa.Builtin); isBuiltin {
+			continue
+		}
+		sc := call.Common().StaticCallee()
+		if sc == nil || !p.isExistenceTest(sc) || call.Common().Args[0] != ssa.Value(fn.Params[0]) {
+			return false // calls something else
+		}
+		// the key is an element of the variadic parameter
+		ld, ok := call.Common().Args[1].(*ssa.UnOp)
+		if !ok {
+			return false
+		}
+		ia, ok := ld.X.(*ssa.IndexAddr)
+		if !ok || ia.X != ssa.Value(fn.Params[1]) {
+			return false
+		}
+		test = call
+	}
+	if test == nil {
+		return false
+	}
+	inLoop := false
+	for _, l := range view.Loops() {
+		if l.Body[test.Block()] && skipsIteration(p, view, test) == "" {
+			inLoop = true
+		}
+	}
+	if !inLoop {
+		return false
+	}
+	// returns: true where the test was true, false only after the loop
+	for _, b := range view.Blocks() {
+		ins := view.Instrs(b)
+		ret, ok := ins[len(ins)-1].(*ssa.Return)
+		if !ok {
+			continue
+		}
+		c, ok := ret.Results[0].(*ssa.Const)
+		if !ok || c.Value == nil {
+			return false
+		}
+		if c.Value.String() == "false" && view.holdsAt(b, test, factTrue) {
+			return false
 		}
 	}
 	return true
